@@ -902,6 +902,8 @@ def cast(p, kind):
             return to_P(int(math.trunc(v)))
         if kind == "bool":
             return to_P(1 if v != 0 else 0)
+        if kind == "rnd":
+            return to_P(int(round(v)))
         import numpy as _np
         return to_P(float(_np.float32(v)))
     at = _single_atom(p)
@@ -925,7 +927,13 @@ def _loglin_terms(p):
             continue
         if len(m) == 1 and m[0][1] == 1:
             at = _ATOMS[m[0][0]]
-            if at.kind in ("par", "Lg", "At", "Cl", "Abs") or (at.kind == "UF" and at.real):
+            if at.kind == "Cast" and (EXP_DEN * Fr(c)).denominator != 1:
+                # an awkward multiple (2 pi, say) of a rounded / converted value: the product itself becomes the generator
+                prod = P.of_atom(at) * c
+                w = _mk("Cast", (prod.key(), "id"), args=(prod, "id"), real=True, name="(%s)" % prod.short(30))
+                out.append((Fr(1), w))
+                continue
+            if at.kind in ("par", "Lg", "At", "Cl", "Abs", "Cast") or (at.kind == "UF" and at.real):
                 out.append((Fr(c), at))
                 continue
         raise Unmodelled("exp/cis of a non-linear argument: %s" % p.short())
@@ -1458,6 +1466,10 @@ def _evatom(at, env, cache):
             r = float(math.trunc(r)) if r == r and abs(r) != float("inf") else r
         elif at.args[1] == "bool":
             r = 1.0 if r != 0 else 0.0
+        elif at.args[1] == "rnd":
+            r = float(round(r)) if r == r and abs(r) != float("inf") else r
+        elif at.args[1] == "id":
+            pass
         else:
             import numpy as _np
             r = float(_np.float32(r))
